@@ -2,6 +2,7 @@ package main
 
 import (
 	"fmt"
+	"go/constant"
 	"go/token"
 	"go/types"
 	"strings"
@@ -612,7 +613,7 @@ var intrinsicNames = map[string]bool{
 	"math.Abs": true, "math.Max": true, "math.Min": true, "math.Round": true, "math.Floor": true, "math.Ceil": true, "math.Trunc": true,
 	"math.Sqrt": true, "math.Pow": true, "math.Exp": true, "math.Log": true, "math.Log1p": true, "math.IsNaN": true, "math.IsInf": true,
 	"math.Float32bits": true, "math.Float32frombits": true, "math.Float64bits": true, "math.Float64frombits": true, "math.Inf": true, "math.NaN": true,
-	"strings.HasPrefix": true, "strings.HasSuffix": true, "strings.Contains": true, "strings.Index": true,
+	"strings.ContainsAny": true, "strings.HasPrefix": true, "strings.HasSuffix": true, "strings.Contains": true, "strings.Index": true,
 	"strings.TrimPrefix": true, "strings.TrimSuffix": true, "strings.ToUpper": true, "strings.ToLower": true, "strings.TrimSpace": true,
 	"unicode/utf8.RuneCountInString": true, "bytes.Equal": true,
 	"sync.(*Mutex).Lock": true, "sync.(*Mutex).Unlock": true, "sync.(*RWMutex).Lock": true, "sync.(*RWMutex).Unlock": true,
@@ -702,6 +703,21 @@ func (g *Gen) intrinsic(in *ssa.Call, key string, common *ssa.CallCommon, args [
 			sv := g.define(in, "(ext.crc32 "+g.bytesToString(args[0].S, st)+")")
 			g.addFact(g.rangeFact(sv.S, in.Type()))
 		}
+	case "strings.ContainsAny":
+		g.uses["str"] = true
+		cst, ok := common.Args[1].(*ssa.Const)
+		if !ok || cst.Value == nil {
+			return false
+		}
+		chars := constant.StringVal(cst.Value)
+		var parts []string
+		for i := 0; i < len(chars); i++ {
+			if chars[i] >= 0x80 {
+				return false
+			}
+			parts = append(parts, "(str.contains "+args[0].S+" "+smtString(string(chars[i]))+")")
+		}
+		def(or(parts...))
 	case "strings.HasPrefix":
 		g.uses["str"] = true
 		def("(str.prefixof " + args[1].S + " " + args[0].S + ")")
